@@ -22,7 +22,11 @@ PROP = "C19"
 RULE = ("single thread: one case = one call history (3 warm-up calls + 40 random calls, thorough: every 4th has 120) over the 30 exported SFile* functions "
         "drawn by one of 5 weight profiles; handle arguments are drawn from {live, closed, orphan (its archive was closed), live handle of another table, 0, 1, "
         "usize::MAX, live+1, live-1, next-id-to-be-issued}; names from {present in 3 spellings, absent, empty, 300 chars, (listfile)}; buffer sizes include 0, "
-        "exact fit, one short, oversize to_read. 15 scripted probe histories precede the random ones (exactness of archive close, read/seek boundaries, every "
+        "exact fit, one short, oversize to_read; every string / buffer / out-handle pointer of a call is NULL now and then; adds use every flag combination of "
+        "{ENCRYPTED, FIX_KEY, REPLACEEXISTING} and every compression mask incl. the two ADPCM codecs (reference: the Rust API adding the same source with the same options). "
+        "The read-only fixtures include members stored encrypted (plain and adjusted key, compressed and raw), a weakly signed archive and the same archive changed after "
+        "signing; the verdict of SFileVerifyArchive on the signature must be the one Archive::verify_signature gives. "
+        "21 scripted probe histories precede the random ones (exactness of archive close, read/seek boundaries, every "
         "buffer size of the name/info calls, every function x forged handle, the trigger predicates of calls that never return, and a sweep of search masks: every "
         "fixture x every listed name x 12 mask shapes with '*' / '?' inserted at / replacing / surrounding every position of the name, each searched to exhaustion). "
         "Masked searches (SFileFindFirstFile / SFileFindNextFile; in random histories half of the masks are derived from the archive's own names the same way) are judged "
@@ -30,7 +34,10 @@ RULE = ("single thread: one case = one call history (3 warm-up calls + 40 random
         "produced name must be selected by the mask, and a search that finds nothing must have nothing to find. Oracle per call: model of "
         "the handle tables (valid iff issued, right table, not closed, archive not closed) and the Rust API on the same archive file (read-only handles) or a "
         "shadow MutableArchive driven in lock-step on a byte-identical copy (mutable handles). threads: one case = one run of N threads x 160 (300) calls, checked "
-        "offline from the call/return log. distinct = distinct (profile, plan hash) histories / distinct (N, mutable, yield, close points) thread plans; a history is "
+        "offline from the call/return log; in two runs of three one more thread mutates a shared writable archive (V1 / V2; add, replace, remove, rename, flush, compact; "
+        "the same mutations go through a shadow MutableArchive on a copy) while the N threads ask it for existence, contents, names, extraction, verification and listings: "
+        "each answer must be the Rust API's answer in one of the states between the mutations that had returned when the call was made and those that had been called when it "
+        "returned (names no mutation touches therefore answer exactly). distinct = distinct (profile, plan hash) histories / distinct (N, mutable, yield, close points) thread plans; a history is "
         "non-trivial if at least 3 calls on live handles succeeded and at least one call used an invalid handle.")
 
 ASSUME = [
@@ -46,6 +53,10 @@ ASSUME = [
     "random histories stay off three trigger predicates whose calls never return (SFILE_VERIFY_ALL_FILES on an archive listing a regular file; an add into a "
     "full hash table; a directory as archive path) and off PKWare compression; each predicate has its own probe case",
     "in threaded runs the time stamps are taken at the caller boundary, so 'called after the close returned' is sound but not complete",
+    "mutation racing with reads: one mutating thread per archive (its mutations are totally ordered), V1 / V2 archives without (attributes); SFileVerifyFile = true is only "
+    "required to concern a name that exists in the writable or the read-only view in one of the candidate states; the verdicts of SFileVerifyArchive are not compared there",
+    "a verdict of SFileVerifyArchive is compared only as far as the signature goes (flag 0x10 or flags 0): refused iff Archive::verify_signature reports an invalid signature "
+    "or an error; with SFILE_VERIFY_ALL_FILES a refusal is never counted against the call",
 ]
 
 
@@ -327,7 +338,7 @@ def run(tier, seed, scratch, t0):
     _rekey_crashes(rt, "native-threads", scratch, "th", {"property": PROP, "tier": tier, "seed": seed, "bin": "c19_threads", "args": ["--count", str(n_thr), "--stall", "10"]})
     layers["native_threads"] = _layer_summary(rt)
     for k, n in rt.counters.items():
-        res.add_counter(k if k.startswith("threaded") or k.startswith("shared") else "threads:" + k, n)
+        res.add_counter(k if k.startswith("threaded") or k.startswith("shared") or k.startswith("mutrace") else "threads:" + k, n)
     hashes = rt.extras.get("interleaving_hashes") or []
     _merge(res, rt, count_cases=True)
 
